@@ -18,6 +18,7 @@ import Driver.Prestate
 import Driver.Bundle
 import Driver.Util
 import Driver.Interp
+import Driver.Evm
 /-! Line-protocol driver: one request per line on stdin, one reply per line on stdout.
 Stateless components are dispatched on the first token. A stateful component `X` adds a field
 `x : Driver.X.St := Driver.X.St.init` to `DState`, resets it on `begin x …` and threads it through
@@ -35,6 +36,7 @@ structure DState where
   prestate : Prestate.St := {}
   bundle : Driver.Bundle.St := Driver.Bundle.St.init
   interp : Driver.Interp.St := Driver.Interp.St.init
+  evm : Driver.Evm.St := Driver.Evm.St.init
   -- stateful component states go here
 
 def step (st : DState) (line : String) : DState × String :=
@@ -69,6 +71,8 @@ def step (st : DState) (line : String) : DState × String :=
   | "begin" :: "interp" :: r => let (s, o) := Driver.Interp.begin r; ({ st with interp := s }, o)
   | "i" :: r => let (s, o) := Driver.Interp.handle st.interp r; ({ st with interp := s }, o)
   | "interp" :: r => (st, Driver.Interp.handleStateless r)
+  | "begin" :: "evm" :: r => let (s, o) := Driver.Evm.begin r; ({ st with evm := s }, o)
+  | "evm" :: r => let (s, o) := Driver.Evm.handle st.evm r; ({ st with evm := s }, o)
   | _ => (st, "bad-op")
 
 partial def loop (hin hout : IO.FS.Stream) (st : DState) : IO Unit := do
